@@ -50,7 +50,7 @@ func C11(tier common.Tier) int {
 	if thorough {
 		bound = 2
 	}
-	run.SetRule("state = one complete schedule of the analysis action DAG (8 analyzers x packages) under a cooperative scheduler that owns every cross-action operation (action start, ImportPackageFact, ExportPackageFact, Report, ReadFile, action end); the REAL Analyzer.Run functions execute in every schedule. All schedules with at most `bound` deviations from the default choice (keep running the current action, else lowest ready action) are enumerated depth-first; for each, diagnostics (position, analyzer, full message text) and the gob bytes of every exported fact must equal those of the default schedule. Conformance: the default schedule equals checker.Analyze in sequential and parallel mode. Run sets: every non-empty subset and every permutation of root packages, sequential and parallel, must give identical per-package results. Real drivers: gogreement -json vs -debug=p vs go vet, permuted package lists, with/without unrelated packages, repeated runs: byte-identical normalised output. Complement (sampling, reported as such): the -race build of the real binary, free-running on 16 cores, must print no DATA RACE. Non-trivial = a schedule that differs from the default order.",
+	run.SetRule("state = one complete schedule of the analysis action DAG (8 analyzers x packages) under a cooperative scheduler that owns every cross-action operation (action start, ImportPackageFact, ExportPackageFact, Report, ReadFile, action end); the REAL Analyzer.Run functions execute in every schedule. All schedules with at most `bound` deviations from the default choice (keep running the current action, else lowest ready action) are enumerated depth-first; for each, diagnostics (position, analyzer, full message text) and the gob bytes of every exported fact must equal those of the default schedule. Conformance: the default schedule equals checker.Analyze in sequential and parallel mode. Run sets: every non-empty subset and every permutation of root packages, sequential and parallel, must give identical per-package results. Real drivers: gogreement -json vs -debug=p vs go vet, permuted package lists, with/without unrelated packages, repeated runs: byte-identical normalised output. Complement (sampling, reported as such): the -race build of the real binary, free-running on 16 cores, on every fixture once and several times on a corpus of 16 independent packages (+8 consumers) that exercise every annotation reader and checker, must print no DATA RACE. Non-trivial = a schedule that differs from the default order.",
 		fmt.Sprintf("deviation bound %d over 2 programs (chain+unrelated, diamond+unrelated); all run sets and root permutations; 3 driver modes x permutations x 3 repetitions; race runs", bound))
 	run.Assume("scheduling points at Pass callbacks are sufficient for order dependence through shared state; unsynchronised accesses between points are delegated to the free-running -race pass", "Go's per-map random iteration order is re-drawn in every execution: a message built by ranging over a map shows up as a mismatch with high probability but is not owned by the scheduler")
 	shapes := e4.Shapes()
@@ -308,8 +308,18 @@ func C11(tier common.Tier) int {
 	if thorough {
 		raceRuns = 24
 	}
-	drv.ParallelDo(raceRuns, 4, func(i int) {
-		dir := fmt.Sprintf("%s/p%d", root, i%len(progs))
+	// the fixtures once each, and a corpus of many independent packages (all their actions run at once) several times
+	corpus := e4.RaceCorpus(16)
+	if _, err := prog.Load(corpus); err != nil {
+		common.Fatalf("race corpus: %v", err)
+	}
+	drv.WriteModule(root+"/rc", corpus)
+	raceRuns += len(progs)
+	drv.ParallelDo(raceRuns, 3, func(i int) {
+		dir := root + "/rc"
+		if i < len(progs) {
+			dir = fmt.Sprintf("%s/p%d", root, i)
+		}
 		o := drv.Run(drv.Req{Driver: drv.Standalone, Dir: dir, Race: true, Env: map[string]string{"GORACE": "halt_on_error=0"}})
 		if strings.Contains(o.Stderr, "DATA RACE") && !strings.Contains(o.Stderr, "a14e/gogreement/src") {
 			// a race that does not involve GoGreement's own code (driver / toolchain): recorded, not judged
